@@ -17,7 +17,14 @@ CHECKS = {
    note="Trusted: torch.randint is the only random source; fractional position is taken on the float32 prescaled value with a 2^-(24-M) slack where the prescale rounds (documented reading).",
    technique="TLA+ spec + TLC exhaustive draw enumeration; trace validation with substituted random source",
    design="4/C14"),
+ "C09": dict(
+   spec="spec/Param.tla, Param_Trace.tla",
+   text="TLC explores every history of length <= 4 over the 11 operations x 4 tags x 3 depths of the tagged-parameter state machine (193k states) and checks TagsSurvive/OptimAccepts/HooksInstalled/ValuesKept, and refutes the pre-fix mechanism (Legacy=copy_drops_hooks) with the length-2 counterexample. Every history is then replayed on real objects (copy, pickle, torch.save/load, .to, .half, load_state_dict, requires_grad_, apply_transform) and the projected state after each operation is validated by Param_Trace against the spec's Apply and the C09 clauses (tags, values, Parameter status, optimizer acceptance, same lr factor).",
+   note="Trusted: the projection param_abs (reads p.__dict__, has_parameter_data, scaled_parameters). Mechanism fields (instance hooks) are compared as model drift only; the gating clauses are those of the property. Module pickling after a Transform is outside the spec (module not picklable).",
+   technique="TLA+ state machine + TLC exhaustive histories; trace validation of replayed histories",
+   design="4/C09"),
 }
+CHECKS = dict(sorted(CHECKS.items()))
 
 NA = {
  "C04": "Gaussian expectations of transcendental functions over continuous ranges: no reals/exp/erf/integration in TLA+; a check would be numerical quadrature, i.e. a different technique (DESIGN.md section 5).",
